@@ -23,11 +23,11 @@ def cases(tier):
         fo = base in vp.F_ORDERED
         for h in ((1, 2) if (fo and quick) else (1, 2, 3)):
             progs += vp.programs(base, h, quick=quick or h == 3, require_inplace=True)
-        if not quick:
-            # h = 4 with at least two in-place statements, reduced templates
+        if not quick and not fo:
+            # h = 4 with at least two in-place statements, reduced templates (C-ordered bases only: generation is slow)
             p4 = [p for p in vp.programs(base, 4, quick=True, require_inplace=True) if sum(vp.is_inplace(l) for l in p) >= 2]
             progs += p4[::3]
-        elif not fo:
+        elif quick and not fo:
             # quick: the 4-statement histories "two views, .shape assigned to a tensor of the family, then an in-place update"
             # (the shortest shape of the sibling-view defect repaired in /repo; see known_findings.json), built directly
             shape = vp.BASES[base]
@@ -141,7 +141,7 @@ try:
     for i, ln in enumerate(LINES):
         if "Mt" in ln or "Mb" in ln:
             A["Mt"] = T["Mt"] = mask_for(A[tgt(ln)].shape); A["Mb"] = T["Mb"] = mask_for(A[tgt(ln)].shape[-1:])
-        exec(re.sub(r",\\s*constant=(True|False|None)", "", ln).replace("mg.", "np."), A)
+        exec(re.sub(r",\\s*constant=(True|False|None)", "", re.sub(r"\\b(\\w+)\\.copy\\(\\)", r"np.copy(\\1)", ln)).replace("mg.", "np."), A)
         for n in NAMES:
             if n in A and not isinstance(A[n], np.ndarray): A[n] = np.array(A[n])  # NumPy scalar <-> 0-d tensor
         exec(ln, T)
